@@ -178,7 +178,10 @@ TMAChecks(o) ==
            <<"c10_tm_scale_factor", Within(FromJ(o.fwd.psf), Mul(prj.k0, ScaleOverK0SC(FromJ(o.ell.a), n, sc[1][1], sc[1][2], t)), Add(Psf2e8, Half8))>>,
            <<"c10_tm_convergence", sgn = 0 \/ Within(FromJ(o.fwd.conv), convExp, Deg1e9)>>,
            <<"c02_tm_inverse_lat", ~GridOK(E(o), N(o)) \/ o.inv.exc # "" \/ Within(FromJ(o.inv.lat), lat, Dec(2500, 3))>>,
-           <<"c02_tm_inverse_lon", ~GridOK(E(o), N(o)) \/ o.inv.exc # "" \/ Within(FromJ(o.inv.lon), FromJ(o.lon), LonEnv(o))>> >>)))
+           \* (an explicit zone across the +-180 meridian: the inverse answers central meridian + difference, i.e. the same meridian
+           \*  written beyond +-180 - compared modulo 360)
+           <<"c02_tm_inverse_lon", ~GridOK(E(o), N(o)) \/ o.inv.exc # "" \/
+                                   Leq(Abs(FoldDl(Sub(FromJ(o.inv.lon), FromJ(o.lon)))), LonEnv(o))>> >>)))
 
 Checks(ev) == CASE ev.k = "P" -> PChecks(ev.o)
                 [] ev.k = "TM" -> TMChecks(ev.o)
